@@ -174,7 +174,7 @@ func (x *Exec) val(st *State, f *Frame, v ssa.Value) Val {
 	case *ssa.Global:
 		return PtrV{GlobAddr{c}}
 	case *ssa.Function:
-		return &ClosV{Fn: c}
+		return x.eng.fnVal(c)
 	case *ssa.Builtin:
 		bail("builtin %s used as value", c.Name())
 	}
@@ -1263,7 +1263,12 @@ func (x *Exec) checkInvariants(st *State, f *Frame, lp int, kind string) {
 	}
 	env := x.loopEnv(st, f, lp)
 	for k, cl := range x.loopInvs(f, lp) {
-		g := env.evalBool(cl.E)
+		g, msg := x.tryInv(env, cl)
+		if msg != "" {
+			// the invariant talks about variables this loop no longer has: it cannot be established
+			cl = &Clause{Kind: cl.Kind, Name: cl.Name, Props: cl.Props, Loop: cl.Loop, Text: cl.Text + "   [cannot be evaluated on this code: " + msg + "]"}
+			g = TFalse
+		}
 		name := cl.Name
 		if name == "" {
 			name = fmt.Sprintf("%d", k+1)
@@ -1301,8 +1306,25 @@ func (x *Exec) assumeInvariants(st *State, f *Frame, lp int) {
 		}
 	}
 	for _, cl := range x.loopInvs(f, lp) {
-		st.assume(env.evalBool(cl.E))
+		if g, msg := x.tryInv(env, cl); msg == "" {
+			st.assume(g)
+		}
 	}
+}
+
+// tryInv evaluates a loop invariant; a contract error (e.g. a local variable that no longer exists)
+// is returned as a message instead of making the whole function undecided.
+func (x *Exec) tryInv(env *Env, cl *Clause) (g Term, msg string) {
+	defer func() {
+		if r := recover(); r != nil {
+			if se, ok := r.(specError); ok {
+				g, msg = TFalse, se.msg
+				return
+			}
+			panic(r)
+		}
+	}()
+	return env.evalBool(cl.E), ""
 }
 
 // ---------------------------------------------------------------------------
